@@ -20,9 +20,28 @@
    (`supported`: no clone of a record of ANOTHER WengertList - such streams are rejected with
    InconsistentHistory or a panic and are covered by the correspondence check).  Any
    commutative ring.
-   C06_constant_side_inert: binary operations AND both matrix multiplications, either side. *)
+   C06_constant_side_inert: binary operations AND both matrix multiplications, either side.
+
+   Session 3: the program language of the theorem (Container.cop) now also contains
+   * OSelect f srcs - a container whose SOURCE is ANY view over one or several other containers
+     of one history: the constructor carries the position map f (from the sources' kinds and
+     shapes to the new kind, shape and, per element, which element of which source it is), and
+     the theorem quantifies over all programs, hence over ALL such maps at once.  The view
+     kinds of the case language (TensorRange, TensorMask, TensorReverse, TensorRename,
+     TensorAccess, TensorTranspose, TensorIndex + TensorExpansion, TensorChain, TensorStack +
+     TensorIndex, MatrixRange, MatrixReverse, the quadrants of a partitioned matrix) are the
+     instances Model/ContainerViews.view_map; the older OView kinds (column-major interop
+     matrix, dimension-swapped TensorAccess, detached constants) stay.
+   * OCollect tensor sh colmajor take es a - from_iters::<N> for any N = length es (N = 1: also
+     from_iter) into an arbitrary target kind / shape from a row- or column-major, possibly
+     truncated (take) record stream; per-output errors (InconsistentHistory / Empty / Shape)
+     are part of the model's outcome.
+   Not in the model: Display impls; the record containers' own TensorRef / MatrixRef impls used
+   as the SOURCE of a further adaptor (the views are built over copies of the elements);
+   MatrixMask / MatrixMap (not MatrixMut: the assign forms do not exist for them);
+   TensorRefMatrix (its dimension names are outside the model's name space). *)
 From Coq Require Import List ZArith Bool Arith.
-From EasyML Require Import Base.Sx Model.Num Model.Tape Model.Container Proofs.TapeP Proofs.C06P Proofs.C06Q.
+From EasyML Require Import Base.Sx Model.Num Model.Tape Model.Container Model.ContainerViews Proofs.TapeP Proofs.C06P Proofs.C06Q.
 Import ListNotations.
 
 Theorem C06_elementwise_equiv :
@@ -61,6 +80,25 @@ Theorem C06_constant_side_inert :
   c_matmul ops t x y' = c_matmul ops t x y /\ c_matmul ops t y' x = c_matmul ops t y x.
 Proof. exact @constant_side_inert_all. Qed.
 
+(* A container whose source is a view (OSelect) is exactly the relabelling its position map
+   describes: nothing is appended to the tape, the kind / shape are the map's, the number of
+   elements is that of the shape, every source has the container's history, and element i is
+   the (number, tape position) pair j of source k where (k, j) = nth i pos.  Together with
+   C06_elementwise_equiv (which covers every program containing such views, for every map f)
+   this is the model-level content of "for every source view kind and shape". *)
+Theorem C06_view_is_relabelling :
+  forall (R : Type) (ops : numops R) t env f srcs t' (c : cont R),
+  cstep ops (t, env) (OSelect f srcs) = Some (Ok (t', [c])) ->
+  t' = t /\
+  exists xs tensor sh pos,
+    sequence (map (fun k => nth_error env k) srcs) = Some xs /\
+    f (map (fun x => (c_tensor x, c_shape x)) xs) = Some (tensor, sh, pos) /\
+    c_tensor c = tensor /\ c_shape c = sh /\ length (c_data c) = length pos /\ elements sh = length pos /\
+    Forall (fun x => c_hist x = c_hist c) xs /\
+    forall i k j, nth_error pos i = Some (k, j) ->
+      exists x v, nth_error xs k = Some x /\ nth_error (c_data x) j = Some v /\ nth_error (c_data c) i = Some v.
+Proof. exact @select_is_relabelling. Qed.
+
 (* non-vacuity: a 2-element variables tensor, a constants tensor, their elementwise product
    (binary), the left-assign sum with the variables, and a unary kind; both runs complete and
    (0, 1) is an input element.  d(out[1]) / d(x[1]) = c[1] + 1 = 7 on both tapes. *)
@@ -92,5 +130,31 @@ Proof.
   do 6 eexists. vm_compute. repeat split; reflexivity.
 Qed.
 
+(* non-vacuity with generic source views and from_iters::<3>: x = a 2x3 variables tensor; its
+   TensorAccess view with the dimensions swapped (3x2); the TensorRange rows 1..3 of that view;
+   the TensorReverse (both dimensions) of the range = [x5 x2; x4 x1] (values 6 3 5 2); its
+   elementwise square through `binary`; and from_iters::<3> of the reversed view's records with
+   the closures x, 2 * x and constant(x).  Both runs complete, 8 containers; the second
+   collected output is [12 6 10 4] and d(2 * x5) / d x5 = 2 on both tapes. *)
+Example C06_nonvacuous_views :
+  let prog := [ODecl true true [(0, 2); (1, 3)] [1; 2; 3; 4; 5; 6]%Z;
+               OSelect (view_map 4 [[1; 0]]) [0];
+               OSelect (view_map 0 [[1; 0]; [2; 2]]) [1];
+               OSelect (view_map 2 [[1; 1]]) [2];
+               OBinary 1 2 3 3;
+               OCollect true [(0, 4); (1, 1)] false 4 [SX; SUn 12 2%Z SX; SDetach SX] 3] in
+  forallb supported prog = true /\ is_input 0 5 0 prog /\
+  exists m ct cenv m' et eenv,
+    crun Zops6 ([], []) 0 prog = Some (m, Ok (ct, cenv)) /\
+    erun Zops6 ([], []) 0 prog = Some (m', Ok (et, eenv)) /\ length cenv = 8 /\
+    option_map (fun c => map fst (c_data c)) (nth_error cenv 3) = Some [6; 3; 5; 2]%Z /\
+    option_map (fun c => map fst (c_data c)) (nth_error cenv 6) = Some [12; 6; 10; 4]%Z /\
+    nth 5 (sweep Zops6 ct 10) 0%Z = 2%Z /\ nth 5 (sweep Zops6 et 10) 0%Z = 2%Z.
+Proof.
+  cbv zeta. split; [reflexivity|]. split; [left; split; [reflexivity|cbn; auto]|].
+  do 6 eexists. vm_compute. repeat split; reflexivity.
+Qed.
+
 Print Assumptions C06_elementwise_equiv.
 Print Assumptions C06_constant_side_inert.
+Print Assumptions C06_view_is_relabelling.
